@@ -102,9 +102,9 @@ def step (s : St) (toks : List String) : IO (St × Bool) := do
     | _ => IO.println "bad-op"; return (s, false)
   | "newf" :: ty :: _ =>            -- p_tree_new_full whose allocation fails: NULL, whatever the (valid) arguments; no tree afterwards
     if newFull (match ty with | "bst" => 0 | "rb" => 1 | _ => 2) true false then
-      IO.println "ok"; return (s, false)
+      IO.println "ok held=1"; return (s, false)
     else
-      IO.println "fail"; return ({ s with alive := false, spec := [], t := .bst (.nil, 0) }, false)
+      IO.println "fail held=0"; return ({ s with alive := false, spec := [], t := .bst (.nil, 0) }, false)
   | ["ins", o] =>
     match o.toNat? with
     | none => IO.println "bad-op"; return (s, false)
